@@ -305,6 +305,41 @@ theorem search_range_crash (fs : FS) (al : List AFile) (hrep : Rep fs al) (hwf :
         rw [List.map_append, takeWhile_append_neg _ _ _ hall', List.append_nil]
 
 
+/-- **Crash anywhere in a write.** After any history `pre` of complete writes, let the writer die at any byte of the action
+stream of the next `write` call (`k` complete actions and `j` bytes of the next one: inside the removals or creations of a
+roll-over, inside the 16 bytes of an index entry, inside a line, ...). A time-range search by a fresh searcher on what is on
+disk does not fail and returns, for every window and resource, exactly the held items of the window in write order - what was
+held before plus the first `m` items of the interrupted call (those whose lines are complete), minus whole files removed by
+retention - followed by at most one more item (the torn line misread). -/
+theorem search_after_crash (maxSize maxFiles nowMs : Nat) (pre : List (Nat × List MItem)) (ts : Nat) (items : List MItem)
+    (w0 : Writer) (acts : List Act) (hnew : Writer.new {} maxSize maxFiles nowMs = some (w0, acts))
+    (hgoodPre : ∀ p ∈ pre, ∀ it ∈ p.2, GoodItem { it with ts := p.1 }) (hgood : ∀ it ∈ items, GoodItem { it with ts := ts })
+    (hts : nowMs / 1000 < 18446744073709551616 ∧ (∀ p ∈ pre, p.1 / 1000 < 18446744073709551616) ∧ ts / 1000 < 18446744073709551616)
+    (hbytes : histBytes pre + ((stamp ts items).flatMap lineBytes).length < 18446744073709551616)
+    (hitems : histItems pre + items.length + 1 < MAX_ITEM_AMOUNT) (k j : Nat) :
+    ∃ d m, ∀ b e res, ∃ extra : List MItem, extra.length ≤ 1 ∧
+      (searchRange ((runWrites w0 (({} : FS).applyAll acts) pre).2.1.applyAll
+          (crashPrefix ((runWrites w0 (({} : FS).applyAll acts) pre).1.write (runWrites w0 (({} : FS).applyAll acts) pre).2.1 ts items).2.1 k j))
+        {} b e res).2 =
+        some (specRange ((((runWrites w0 (({} : FS).applyAll acts) pre).2.2 ++
+          (accepted (runWrites w0 (({} : FS).applyAll acts) pre).1 ts items).take m).drop d).map stored) b e res ++ extra) := by
+  obtain ⟨al0, hinv0, hitems0⟩ := new_inv maxSize maxFiles nowMs w0 acts hnew
+  obtain ⟨al, hinv, k0, hk0⟩ := run_inv pre w0 _ al0 0 0 hinv0 hgoodPre
+  have hl0 : w0.latest = nowMs / 1000 := by
+    unfold Writer.new at hnew
+    split at hnew
+    · simp at hnew
+    · simp only [Option.some.injEq, Prod.mk.injEq] at hnew
+      rw [← hnew.1]
+  have hlatest : (runWrites w0 (({} : FS).applyAll acts) pre).1.latest ≤ 18446744073709551615 :=
+    run_latest_le pre w0 _ 18446744073709551615 (by rw [hl0]; omega) (fun p hp => by have := hts.2.1 p hp; omega)
+  obtain ⟨d, m, al', hrep, hwf, hcap, htorn, hheld⟩ := crash_in_write _ _ al _ _ ts items hinv hgood (by omega) (by omega) ⟨by omega, hts.2.2⟩ k j
+  rw [hk0, hitems0, List.nil_append] at hheld
+  refine ⟨min k0 (runWrites w0 (({} : FS).applyAll acts) pre).2.2.length + d, m, fun b e res => ?_⟩
+  obtain ⟨extra, he, hs⟩ := search_range_crash _ al' hrep hwf hcap htorn b e res
+  refine ⟨extra, he, ?_⟩
+  rw [hs, hheld, drop_min (runWrites w0 (({} : FS).applyAll acts) pre).2.2 k0, drop_append_drop _ _ _ _ (Nat.min_le_right _ _)]
+
 /-- retention: a roll-over keeps the newest `maxFiles - 1` files (all of them while there are fewer) -/
 theorem retention_keeps_newest (n maxFiles : Nat) (h : 0 < maxFiles) : n - dropCount n maxFiles = min n (maxFiles - 1) := by
   unfold dropCount; split <;> omega
